@@ -12,7 +12,14 @@ pub fn in_domain(a: f64) -> bool { a.is_finite() && a >= -DOMAIN_THOROUGH && a <
 pub fn in_quick(a: f64) -> bool { a >= -DOMAIN && a <= DOMAIN }
 
 // ---- postcondition predicates (documented closed ranges)
-pub fn post_to_2pi(r: f64) -> bool { r >= 0.0 && r <= 2.0 * PI }
+/// (Kani only) the value angle_to_2pi's postcondition was last evaluated on. Under `stub_verified(angle_to_2pi)` that is the
+/// value the stubbed callee returned, which lets a modular harness state its claim in terms of it (angle_interval.rs).
+/// A plain store: no arithmetic on the static (Kani starts contract harnesses with arbitrary statics).
+#[cfg(kani)] pub static mut LAST_TO_2PI: f64 = 0.0;
+pub fn post_to_2pi(r: f64) -> bool {
+    #[cfg(kani)] unsafe { LAST_TO_2PI = r; }
+    r >= 0.0 && r <= 2.0 * PI
+}
 pub fn post_signed_pi(r: f64) -> bool { r >= -PI && r <= PI }
 pub fn post_in_direction(r: f64) -> bool { r >= 0.0 && r <= 2.0 * PI }
 pub fn post_compliment(a: f64, r: f64) -> bool {
